@@ -5,8 +5,11 @@
 (* of them.  `Points[backend][kind]` lists, in the code's order, the named *)
 (* points after each durable write but the last (the names of hook H1).    *)
 (*                                                                         *)
-(* Behaviour: a history of NodeDB operations, then Crash during the LAST   *)
-(* operation at one of its points, then Reopen, Retry, Continue.           *)
+(* Behaviour: a history of NodeDB operations, Crash during the last        *)
+(* operation so far at one of its points, then Reopen, Retry, and up to    *)
+(* MaxAfter further operations on the reopened database (a competing       *)
+(* candidate committed after the reopen, the earlier candidate finalized:  *)
+(* what the database kept in memory only is gone by then).                 *)
 (* Rule (evaluated by the harness on the real database, with the model's   *)
 (* pre- and post-state as the two admissible observations):                *)
 (*   after Crash;Reopen  the finalized state equals the state before or    *)
@@ -19,13 +22,15 @@
 EXTENDS NodeDB
 
 CONSTANTS Backends, Points
+MaxAfter == 0      \* overridden in configs that continue after the crash
 
 VARIABLE crash     \* <<>> or [backend, point, step]
 cvars == <<st, hist, crash>>
 
 CInit == Init /\ crash = <<>>
 
-Run == crash = <<>> /\ Next /\ UNCHANGED crash
+Run == /\ Next /\ UNCHANGED crash
+       /\ (crash = <<>> \/ Len(hist) - 1 - crash.step < MaxAfter)
 
 Crash ==
     /\ crash = <<>> /\ hist # <<>>
@@ -43,5 +48,5 @@ cgenview == <<st, LastOp, crash>>
 EmitCrash == (crash # <<>>) => PrintT(ToJson([steps |-> Observe(Init0, hist, <<>>), crash |-> crash]))
 
 (* the model-level statement: the crash point never lies outside the interrupted operation *)
-CrashWellFormed == crash # <<>> => crash.step = Len(hist) - 1
+CrashWellFormed == crash # <<>> => (crash.step <= Len(hist) - 1 /\ Len(hist) - 1 - crash.step <= MaxAfter)
 =============================================================================
